@@ -75,10 +75,12 @@ STEPS = {
     "PMMid": [("^", "Mid"), (".i", "In"), (".a", "AIn"), (".pm", "PMIn"), (".pi", "PIn"), (".ap", "APIn"), (".am", "APMIn")],
     "PMid": [("^", "Mid"), (".i", "In"), (".a", "AIn"), (".pm", "PMIn"), (".pi", "PIn"), (".ap", "APIn"), (".am", "APMIn")],
     "OIn": [("unwrap", "In")],
+    "PMAPIn": [("^", "APIn"), ("[0]", "PIn")],
+    "PAPMIn": [("^", "APMIn"), ("[0]", "PMIn")],
     "i32": [],
 }
-PTR_MUT = {"PMIn": True, "PIn": False, "PMMid": True, "PMid": False}
-UNDER = {"PMIn": "In", "PIn": "In", "PMMid": "Mid", "PMid": "Mid"}
+PTR_MUT = {"PMIn": True, "PIn": False, "PMMid": True, "PMid": False, "PMAPIn": True, "PAPMIn": False}
+UNDER = {"PMIn": "In", "PIn": "In", "PMMid": "Mid", "PMid": "Mid", "PMAPIn": "APIn", "PAPMIn": "APMIn"}
 
 
 def paths(ty, maxlen):
@@ -123,6 +125,10 @@ ROOTS = [
     Root("ptr-by-const", "PMid", "ric", False, "ric :: ^lm;"),
     Root("param-ptrmut", "PMMid", "pq", False, None, in_helper=("pq: ^mut Mid", "^mut lm")),
     Root("param-ptr", "PMid", "pz", False, None, in_helper=("pz: ^Mid", "^lm")),
+    # pointers to arrays of pointers: the array is indexed *through* the pointer (auto-deref), then the element is dereferenced
+    Root("ptrmut-to-array-of-ptr", "PMAPIn", "pap", True, "pap := ^mut lm.ap;"),
+    Root("ptr-to-array-of-ptrmut", "PAPMIn", "pam", True, "pam := ^lm.am;"),
+    Root("param-ptrmut-to-array-of-ptr", "PMAPIn", "pq2", False, None, in_helper=("pq2: ^mut [1]^In", "^mut lm.ap")),
 ]
 
 NEW = {
@@ -198,6 +204,10 @@ def make_case(root, steps, final_ty, op, paren_at, idx):
             rootval = copy_mid(lm)  # `lc :: lm` and a value parameter are copies
     elif root.ty == "In":
         rootval = {"v": 71, "w": [72, 73]}
+    elif root.ty == "PMAPIn":
+        rootval = ("ptr", lm["ap"], True)
+    elif root.ty == "PAPMIn":
+        rootval = ("ptr", lm["am"], False)
     else:
         rootval = ("ptr", lm, PTR_MUT[root.ty])
     place = spell(root.expr, steps, paren_at)
@@ -279,6 +289,8 @@ def gen(quick):
                 # the bare root: only value roots of a struct type
                 if root.ty not in ("Mid", "In"):
                     continue
+            if root.ty in ("PMAPIn", "PAPMIn") and maxlen == 3:
+                pass
             if fty == "Mid":
                 continue
             parens = [None]
